@@ -431,6 +431,22 @@ class PG:
                         work.append(m)
         return ok, len(starts)
 
+    def block_reaches(self, src_block, dst_pred):
+        """Is some block with dst_pred reachable (through >= 1 edge) from src_block?"""
+        seen = set()
+        work = []
+        for n in self.by_block.get(src_block, []):
+            work += [m for m, _ in self.edges[n] or []]
+        while work:
+            n = work.pop()
+            if n in seen:
+                continue
+            seen.add(n)
+            if dst_pred(self.nodes[n][0]):
+                return True
+            work += [m for m, _ in self.edges[n] or []]
+        return False
+
     def reach(self, assume=None, start_block=0):
         """Blocks reachable from entry over edges none of whose literals contradicts a literal in
         `assume` (list of literals)."""
